@@ -75,6 +75,45 @@ def has_quantifier(f) -> bool:
     return False
 
 
+class QFact:
+    """A universally quantified fact  forall x. fn(x)  that the engine can also instantiate by
+    hand at the index / key terms the executed code actually reads (the path solver is ground)."""
+
+    def __init__(self, fn, sort=None, pattern=None, name: str = "q") -> None:
+        self.fn = fn
+        self.sort = sort if sort is not None else I
+        self.pattern = pattern          # optional callable(x) -> pattern term
+        self.name = name
+
+    def forall(self):
+        x = z3.Const(f"{self.name}!x", self.sort)
+        body = self.fn(x)
+        if self.pattern is not None:
+            try:
+                p = self.pattern(x)
+                if _pattern_ok(p):
+                    return z3.ForAll([x], body, patterns=[p])
+            except z3.Z3Exception:
+                pass
+        return z3.ForAll([x], body)
+
+    def at(self, t):
+        return self.fn(t)
+
+
+def _pattern_ok(t) -> bool:
+    todo = [t]
+    while todo:
+        x = todo.pop()
+        if z3.is_quantifier(x):
+            return False
+        if z3.is_app(x) and x.decl().kind() in (z3.Z3_OP_ITE, z3.Z3_OP_AND, z3.Z3_OP_OR, z3.Z3_OP_NOT,
+                                                z3.Z3_OP_EQ, z3.Z3_OP_IMPLIES):
+            return False
+        todo.extend(x.children())
+    return True
+
+
 ALLOC_BASE = 1_000_000      # addresses >= ALLOC_BASE are allocated during the path (numerals)
 
 
@@ -109,6 +148,8 @@ class State:
         self.cover_hits: set[str] = set()
         self.no_fork = 0
         self.hints: list = []
+        self.qfacts: list[QFact] = []
+        self._inst_done: set = set()
 
     # ------------------------------------------------------------------ symbols
     def fresh(self, name: str, sort: z3.SortRef = None) -> z3.ExprRef:
@@ -142,6 +183,9 @@ class State:
 
     # ------------------------------------------------------------------ path condition
     def assume(self, f) -> None:
+        if isinstance(f, QFact):
+            self.qfacts.append(f)
+            f = f.forall()
         if isinstance(f, bool):
             if not f:
                 raise PathEnd("assume False")
@@ -323,7 +367,20 @@ class State:
         return None
 
     # ------------------------------------------------------------------ obligations
+    def instantiate_at(self, t: z3.ExprRef) -> None:
+        """Hand-instantiate the registered quantified facts at a term the code reads."""
+        key = (t.get_id(), len(self.qfacts))
+        for q in self.qfacts:
+            if q.sort == t.sort():
+                k = (id(q), t.get_id())
+                if k in self._inst_done:
+                    continue
+                self._inst_done.add(k)
+                self.assume(q.at(t))
+
     def check(self, name: str, goal, kind: str = "property", note: str = "", meta: dict | None = None) -> None:
+        if isinstance(goal, QFact):
+            goal = goal.forall()
         if isinstance(goal, bool):
             goal = z3.BoolVal(goal)
         m = dict(self.meta)
